@@ -247,6 +247,57 @@ theorem read_all_waits_mid_packet (need : Bool) (n got used : Nat) (evs : List S
     readAll need true n got used (.timeout :: evs) = (if n = 0 then .ok used else readAll need true n got (used + 1) evs) := by
   simp [readAll, hg]
 
+/-! ## "traffic continues intact": the compression engines follow every key switch -/
+
+/-- invariant: in each direction the (de)compressor in use was created for the key set in use -/
+def CInv (s : CSt) : Prop :=
+  s.compOutGen = expectedCompGen s.comp s.authenticated s.outGen ∧
+  s.compInGen = expectedCompGen s.comp s.authenticated s.inGen
+
+private theorem cinv_step (s : CSt) (o : COp) (h : CInv s) : CInv (cstep s o) := by
+  obtain ⟨h1, h2⟩ := h
+  cases hc : s.comp <;> cases ha : s.authenticated <;> cases o <;>
+    simp_all [CInv, cstep, CSt.switchOn, expectedCompGen]
+
+/-- **Engines are re-installed on every NEWKEYS.**  After any sequence of key switches (initial exchange and any
+number of re-exchanges, in either order per direction) and authentication, the outbound compressor and the
+inbound decompressor belong to the current key set of their direction — for "zlib" from the first NEWKEYS on, for
+"zlib@openssh.com" from authentication on. -/
+theorem compressor_follows_every_newkeys (c : Comp) (ops : List COp) : CInv (crun { comp := c } ops) := by
+  have : ∀ s, CInv s → CInv (crun s ops) := by
+    induction ops with
+    | nil => intro s h; exact h
+    | cons o ops ih => intro s h; exact ih _ (cinv_step s o h)
+  exact this _ (by cases c <;> simp [CInv, expectedCompGen])
+
+/-- **Both ends agree.**  A sender and a receiver that negotiated the same compression, are in the same
+authentication state and have switched keys equally often in that direction use a compressor / decompressor pair
+created for the same key set — so the compressed stream stays decodable across every re-exchange. -/
+theorem compressor_pair_in_step (c : Comp) (opsS opsR : List COp)
+    (hauth : (crun { comp := c } opsS).authenticated = (crun { comp := c } opsR).authenticated)
+    (hgen : (crun { comp := c } opsS).outGen = (crun { comp := c } opsR).inGen) :
+    (crun { comp := c } opsS).compOutGen = (crun { comp := c } opsR).compInGen := by
+  have hS := (compressor_follows_every_newkeys c opsS).1
+  have hR := (compressor_follows_every_newkeys c opsR).2
+  have hcS : ∀ ops : List COp, (crun { comp := c } ops).comp = c := by
+    intro ops
+    have : ∀ s : CSt, (crun s ops).comp = s.comp := by
+      induction ops with
+      | nil => intro s; rfl
+      | cons o ops ih =>
+        intro s
+        simp only [crun, List.foldl_cons] at ih ⊢
+        rw [ih]
+        cases o <;> simp only [cstep] <;> (repeat' split) <;> rfl
+    exact this _
+  rw [hS, hR, hcS, hcS, hauth, hgen]
+
+/-- one `set_outbound_compressor` per NEWKEYS sent while compression is on (plus the one of `_auth_trigger`) -/
+example : (crun { comp := .zlib } [.newkeysOut, .newkeysIn, .auth, .newkeysOut, .newkeysIn, .newkeysOut]).installsOut = 3 := by
+  decide
+example : let s := crun { comp := .delayed } [.newkeysOut, .newkeysIn, .auth, .newkeysIn, .newkeysOut]
+    s.installsOut = 2 ∧ s.installsIn = 2 ∧ s.compOutGen = some 2 ∧ s.compInGen = some 2 := by decide
+
 /-! ## non-vacuity: a scaled-down packetizer through two complete rekeys and an ignoring peer -/
 
 private def small : Limits := ⟨4, 1000, 3, 500⟩
